@@ -461,7 +461,7 @@ def hang_signature(inv):
 
 
 # ============================================================================= C06 (whole handler)
-FAULT_EXPECT = {"4xx": "raised", "5xx": "FAILED", "429": "FAILED", "token": "FAILED"}
+FAULT_EXPECT = {"4xx": "raised", "5xx": "FAILED", "429": "FAILED", "token": "FAILED", "4xx-tokenmsg": "raised", "403": "raised"}
 
 
 def judge_c06(d, _=None):
